@@ -606,7 +606,87 @@ def expand(key, cfg, reverse=False, prune=None, focus=None):
             except Exception as e:  # noqa
                 ctx.v("C06", "collapsed:raised", opd, repr(e))
         _expand_slicing(key, d, fresh, ctx)
+    _expand_observe_mutate_observe(key, d, fresh, ctx, R, cols)
     return ctx
+
+
+def _touch(s):
+    """Call every reading method once (whatever an index memoises is now in place)."""
+    for _ in s.slices1d() if len(s.shape) > 1 else ():
+        pass
+    s.to_array(dtype=int)
+    s.abscissae
+    s.sparsity
+    s.to_dict(force=True)
+    list(s.items(force=True))
+    for hc in cells_of(s.shape[1:]):
+        s.common_rowids(*hc)
+    from catii.ccubes import ccube
+
+    if all(k[0] >= 0 for k in dict.keys(s)) and s.common >= 0:
+        ccube([s]).count()
+
+
+def _reobserve(s, exp, opd, ctx, opname):
+    """After an in-place change of an index whose readers had all been used before: every reader must show the NEW content."""
+    shape = tuple(s.shape)
+    if s.to_array(dtype=int).tolist() != exp.tolist():
+        ctx.v("C06", opname + ":stale:to_array", opd, "to_array after the change = %r, expected %r" % (s.to_array(dtype=int).tolist(), exp.tolist()))
+    if len(shape) > 1:
+        for coords, sl in s.slices1d():
+            got = M.read_dense(sl).tolist()
+            want = exp[(slice(None),) + tuple(coords)].tolist()
+            if got != want:
+                ctx.v("C06", opname + ":stale:slices1d", opd, "slice %r after the change = %r (common %r), expected %r" % (tuple(coords), got, sl.common, want))
+    for hc in cells_of(shape[1:]):
+        cr = s.common_rowids(*hc).tolist()
+        want = [r for r in range(shape[0]) if exp[(r,) + hc] == s.common]
+        if cr != want:
+            ctx.v("C06", opname + ":stale:common_rowids", opd, "common_rowids%r after the change = %r, expected %r" % (hc, cr, want))
+    present = set(int(x) for x in exp.flat)
+    if set(s.abscissae) != present:
+        ctx.v("C06", opname + ":stale:abscissae", opd, "abscissae after the change %r, values present %r" % (sorted(s.abscissae), sorted(present)))
+    if exp.size and abs(s.sparsity - 100.0 * int((exp == s.common).sum()) / exp.size) > 1e-9:
+        ctx.v("C06", opname + ":stale:sparsity", opd, "sparsity after the change %r" % (s.sparsity,))
+    if all(v >= 0 for v in present | {s.common}) and exp.size:
+        from catii.ccubes import ccube
+
+        E = max(present | {s.common}) + 1
+        got = ccube([s], interacting_shape=(E,)).count(return_missing_as=(0, False))[0]
+        want = numpy.stack([(exp == v).sum(axis=0) for v in range(E)], axis=-1) if exp.ndim > 1 else numpy.array([(exp == v).sum() for v in range(E)])
+        if numpy.asarray(got).tolist() != want.tolist():
+            ctx.v("C06", opname + ":stale:count-cube", opd, "count cube over the changed index = %r, expected %r" % (numpy.asarray(got).tolist(), want.tolist()))
+
+
+def _expand_observe_mutate_observe(key, d, fresh, ctx, R, cols):
+    """read everything -> change in place -> read everything again, on ONE object (stale memoised slices, cached counts ...)."""
+    shape, common, _ = key
+    nrows = shape[0]
+
+    def run(opd, opname, mutate, exp):
+        s = fresh()
+        try:
+            _touch(s)
+            mutate(s)
+            _reobserve(s, exp, opd, ctx, opname)
+        except Exception as e:  # noqa
+            ctx.v("C06", opname + ":stale:raised", opd, repr(e))
+        ctx.ntrans += 1
+
+    for v in (None,) + COMMONS:
+        run({"op": "shift_common", "to": v, "after_reading": True}, "shift_common", (lambda s, v=v: s.shift_common(v) if v is not None else s.shift_common()), d)
+    for k in range(1, R - nrows + 1):
+        for o in operand_arrays(k, cols):
+            for oc in COMMONS[:2]:
+                if d.ndim != o.ndim:
+                    continue
+                run({"op": "append", "other": o.tolist(), "other_common": oc, "after_reading": True}, "append", (lambda s, o=o, oc=oc: s.append(M.build_index(o, oc))), numpy.concatenate([d, o]))
+    for cell in cells_of(shape):
+        for v in sorted(set(VALS[:2]) | {common}):
+            exp = d.copy()
+            exp[cell] = v
+            ent = {(v,) + tuple(cell[1:]): numpy.array([cell[0]], dtype=U32)}
+            run({"op": "update", "assign": [[list(cell), v]], "after_reading": True}, "update", (lambda s, ent=ent: s.update(ent)), exp)
 
 
 def _expand_slicing(key, d, fresh, ctx):
